@@ -9,8 +9,10 @@ RuntimeError from a concurrent change) still reaches the caller.  30 of the 43
 sites of a translation unit follow it.  Rule: every `PyErr_Clear()` is
 dominated by a class test whose failing edge cannot reach the clear, or is
 followed on every path by the raising of another exception before any return
-(the error is replaced, still reported), or its function is in ACCEPTED
-(confirmed by reading, one reason each).  A cursor
+(the error is replaced, still reported), or every path from it returns
+Py_NotImplemented (operand without __iter__ in the in-place operators: the
+interpreter raises TypeError itself), or its function is in ACCEPTED (confirmed
+by reading, one reason each).  A cursor
 `next` function that clears unguarded ends the iteration silently: the set
 operation returns a truncated result.
 """
@@ -22,12 +24,6 @@ CLASS_TESTS = ("PyErr_ExceptionMatches", "BTree_ShouldSuppressKeyError", "PyErr_
 
 # function -> reason the unguarded clear is accepted
 ACCEPTED = {
-    "set_isub": "operand without __iter__: binary-operator protocol answers NotImplemented",
-    "set_ixor": "operand without __iter__: binary-operator protocol answers NotImplemented",
-    "set_iand": "operand without __iter__: binary-operator protocol answers NotImplemented",
-    "TreeSet_isub": "operand without __iter__: binary-operator protocol answers NotImplemented",
-    "TreeSet_ixor": "operand without __iter__: binary-operator protocol answers NotImplemented",
-    "TreeSet_iand": "operand without __iter__: binary-operator protocol answers NotImplemented",
     "_get_max_size": "class attribute lookup with a default",
     "module_init": "optional import at module initialisation",
     "init_persist_type": "module initialisation",
@@ -78,6 +74,30 @@ def _replaced(nd):
     return True
 
 
+def _answers_not_implemented(nd):
+    """every path from the clear returns Py_NotImplemented: the binary-operator
+    protocol's way of saying "operand not supported" (the interpreter then
+    raises TypeError itself)"""
+    seen = set()
+    work = [s for _, s in nd.succ]
+    found = False
+    while work:
+        n = work.pop()
+        if n.id in seen:
+            continue
+        seen.add(n.id)
+        if n.kind == "return":
+            if n.e is None or "_Py_NotImplementedStruct" not in text(n.e):
+                return False
+            found = True
+            continue
+        if not n.succ:
+            return False
+        for _, s in n.succ:
+            work.append(s)
+    return found
+
+
 def _is_clear(e):
     return e is not None and any(n.k == "CallExpr" and callee(n) == ("fn", "PyErr_Clear") for n in e.walk())
 
@@ -119,6 +139,9 @@ def analyse_tu(tu):
                 continue
             if _replaced(nd):
                 replaced += 1
+                continue
+            if _answers_not_implemented(nd):
+                unguarded_ok += 1
                 continue
             if name in ACCEPTED:
                 unguarded_ok += 1
